@@ -95,7 +95,7 @@ def pushat_pos(kind, n, i):
     return j if 0 <= j < n else -1
 
 
-def random_history(rng, kind, nvals, nops, zero_tok=0, two=True, maxlen=40, bad=None, cross=True, p_out=0.06):
+def random_history(rng, kind, nvals, nops, zero_tok=0, two=True, maxlen=40, bad=None, cross=True, p_out=0.06, fromit=False):
     """random history over up to 3 sequences.  The generator tracks the abstract contents only to choose
     interesting arguments (mostly valid indices, present and absent values); verdicts come from TLC."""
     L = ["reset"]
@@ -152,7 +152,17 @@ def random_history(rng, kind, nvals, nops, zero_tok=0, two=True, maxlen=40, bad=
                 v = rng.choice(q)
             L.append("rem %d %d" % (o, v))
             if v in q: q.remove(v)
-        elif r < 0.77:
+        elif r < 0.775 and fromit and n < maxlen:
+            # operand of another iterable kind (distinct tokens: Tree / Table keys)
+            toks = rng.sample(range(1, nvals + 1), rng.randint(0, min(4, nvals)))
+            # assign reads its operand by position (len + get(i)): a Slice qualifies; concat iterates it after asking its
+            # len: Tree, Table and Slice qualify (a Filter has no len; a keyed container has no positional get)
+            how = rng.choice(["assign", "concat"])
+            sk = "slice" if how == "assign" else rng.choice(["tree", "table", "slice"])
+            L.append("fromit %d %s %s%s" % (o, how, sk, "".join(" %d" % t for t in toks)))
+            if how == "assign": q[:] = toks            # (Tree / Table order is the operand's business: a guess is enough for
+            else: q.extend(toks)                       #  choosing later arguments; TLC judges with the logged order)
+        elif r < 0.78:
             L.append("mem %d %d" % (o, v))
         elif r < 0.81:
             if rng.random() < 0.35:
